@@ -3,8 +3,8 @@ Heartbeat monitors of a logged-in session (C08, C09) — import-free, executable
 
 Transcribed from
   common/session.py  HeartbeatMonitor (`_pinged`, `_start_monitor`), AsyncSession.start_heartbeats, data_received
-  soup/session.py    SoupSession.send_msg, SoupClientSession.login (l.183), SoupServerSession._handle_login (l.293)
-  fix/session.py     FixSession.send_msg, FixSession.login (l.76)
+  soup/session.py    SoupSession.send_msg, SoupClientSession.login, SoupServerSession._handle_login  (the `start_heartbeats(…)` call sites)
+  fix/session.py     FixSession.send_msg, FixSession.login
 
 Time is a grid of natural numbers (one unit = any duration finer than every interval).  Login (the instant
 `start_heartbeats` is called) is time 0.  One `adv` event lets one grid unit pass: it wakes every monitor whose
@@ -13,7 +13,7 @@ external event that carries the same time stamp.  Steps of the library take no t
 -/
 namespace NasdaqModel.Monitor
 
-/-- `HeartbeatMonitor` (common/session.py:32-92).  `missed` is the number of values the `count(1)` iterator
+/-- `HeartbeatMonitor` (common/session.py).  `missed` is the number of values the `count(1)` iterator
     `missed_heartbeats` has handed out since it was last re-created; `left` the grid units until the pending
     `asyncio.sleep(self.interval)` returns; `running` = the monitor task is alive. -/
 structure Mon where
@@ -121,7 +121,7 @@ structure Sess where
   recvs : List (Nat × RecvKind)   -- `data_received` calls, newest first
   deriving Repr, DecidableEq, Inhabited
 
-/-- `start_heartbeats(local, remote)` (common/session.py:275-290) with explicit tolerances -/
+/-- `start_heartbeats(local, remote)` with explicit tolerances -/
 def startWith (l r tolL tolR : Nat) : Sess :=
   { now := 0, loc := Mon.start l tolL false, rem := Mon.start r tolR true,
     closed := false, closeT := 0, closedByMon := false, writes := [], recvs := [] }
@@ -135,7 +135,7 @@ def Sess.close (s : Sess) (byMon : Bool) : Sess :=
   else { s with closed := true, closeT := s.now, closedByMon := byMon, loc := s.loc.stop, rem := s.rem.stop }
 
 /-- `send_msg(msg)`: `transport.write`, then `if not msg.is_heartbeat(): local monitor ping`
-    (soup/session.py:115-120, fix/session.py:84-88; no test of `_closed`) -/
+    (SoupSession.send_msg, FixSession.send_msg; no test of `_closed`) -/
 def Sess.sendMsg (s : Sess) (o : Origin) : Sess :=
   { s with writes := { t := s.now, origin := o, live := !s.closed } :: s.writes,
            loc := if o.isHb then s.loc else s.loc.ping }
@@ -193,9 +193,9 @@ structure Cfg where
 
 /-- `(local_hb_interval, remote_hb_interval)` as passed by the code -/
 def sessionIntervals : Role → Cfg → Nat × Nat
-  | .soupClient, c => (c.clientI, c.serverI)   -- soup/session.py:183  start_heartbeats(client, server)
-  | .soupServer, c => (c.serverI, c.clientI)   -- soup/session.py:293  start_heartbeats(server, client)   (since 757e1aa)
-  | .fix, c => (c.clientI, c.serverI)          -- fix/session.py:76    start_heartbeats(client, server)
+  | .soupClient, c => (c.clientI, c.serverI)   -- SoupClientSession.login:           start_heartbeats(client, server)
+  | .soupServer, c => (c.serverI, c.clientI)   -- SoupServerSession._handle_login:   start_heartbeats(server, client)   (since 757e1aa)
+  | .fix, c => (c.clientI, c.serverI)          -- FixSession.login:                  start_heartbeats(client, server)
 
 /-- the session right after a successful login -/
 def login (role : Role) (c : Cfg) : Sess :=
